@@ -1,6 +1,9 @@
 package packager
 
-import "errors"
+import (
+	stdjson "encoding/json"
+	"errors"
+)
 
 // encoding/json.Unmarshal of text from an unauthenticated peer: it either fails (any text
 // that is not a JSON object of the Package shape) or fills the Package; which of the two is
@@ -8,8 +11,13 @@ import "errors"
 //
 //verif:stub encoding/json.Unmarshal
 func verifStubJSONUnmarshal(data []byte, v any) error {
-	if nondet_bool("not-a-package") {
-		return errors.New("invalid character")
+	switch nondet_choice("decoding", 3) {
+	case 1:
+		return errors.New("json: cannot unmarshal")
+	case 2:
+		// a syntax error at any offset of the text (offsets count from 1, as encoding/json does)
+		off := nondet_choice("syntax-error-offset", len(data)+2)
+		return &stdjson.SyntaxError{Offset: int64(off)}
 	}
 	if p, ok := v.(*Package); ok {
 		p.Head.Event = int(nondet_i32("event"))
